@@ -102,6 +102,38 @@ def explore(ctx, depth):
     ctx.exhaustive = True
 
 
+    token_level(ctx, depth)
+
+
+def token_level(ctx, depth):
+    """the agnostic tokenisation of a note / chord under a clef differs from the kern one only in the pitch letters,
+    each converted under that clef (naturals and display suffixes exist only here)"""
+    import gen, tokobs
+    from kernpy.core.tokens import TokenCategory as TC, ClefToken
+    from kernpy.core.tokenizers import TokenizerFactory
+    rng = ctx.rng
+    n = 300 if depth == 'quick' else 3000
+    cells = [c for c in gen.token_stream(rng, n)]
+    fixed = [{'k': 'note', 'pre': [], 'dur': {'num': '4', 'rat': None, 'dots': 0, 'grace': ''}, 'mid': [], 'pitch': 'c', 'post1': [], 'acc': 'n', 'disp': '', 'post2': []},
+             {'k': 'note', 'pre': [], 'dur': {'num': '4', 'rat': None, 'dots': 0, 'grace': ''}, 'mid': [], 'pitch': 'c', 'post1': [], 'acc': '#', 'disp': 'X', 'post2': []}]
+    cells = fixed + cells
+    clefs = ['*clef' + c for c in CLEFS] + ['*clefGv2', '*clefF^^4']
+    reqs, metas = [], []
+    for c in cells:
+        clef = rng.choice(clefs)
+        reqs.append({'op': 'abs.expect', 'cell': c, 'clef': clef})
+        metas.append((c, clef))
+    allc = set(TC)
+    for (c, clef), r in zip(metas, ctx.driver.ask(reqs)):
+        t, o = tokobs.fresh_kern(r['text'])
+        if t is None:
+            continue
+        impl = call(lambda: TokenizerFactory.create('akern', token_categories=allc, last_clef_reference=ClefToken(clef)).tokenize(t))
+        ctx.count('doc-level:' + c['k'])
+        ctx.check({'cell': r['text'], 'clef': clef, 'clause': 'agnostic cell'}, impl, None, r['akern'], nontrivial=c['k'] in ('note', 'chord'),
+                  what='agnostic export of a cell is not the kern export with only the pitch letters converted under the clef in force')
+
+
 def replay(ctx, payload):
     explore(ctx, 'quick')
 
